@@ -161,7 +161,7 @@ def check(repo, rep):
                 rep.ob('AudioRegion.split passes %s in role' % pn, b.get(pn) == ('p', pn), cx.where('core', l.node), 'AudioRegion.split:' + pn, '%s receives %s' % (pn, show(b.get(pn)) if b.get(pn) else None))
     rep.floor('AudioRegion.split returning paths', nret, 1)
     # ---------------------------------------------------------------- role rule (package-wide instances relevant to split)
-    check_roles(cx, rep, lambda p: p['func'] in ('split', '_make_audio_region', 'AudioRegion.__post_init__', 'AudioRegion.split', 'AudioRegion.load', 'make_silence'), floor=15)
+    check_roles(cx, rep, lambda p: p['func'] in ('split', '_make_audio_region', 'AudioRegion.__post_init__', 'AudioRegion.split', 'AudioRegion.load', 'make_silence', '_Recorder.rewind', 'get_audio_source', 'AudioEnergyValidator.__init__'), floor=15)
     rep.explanation = ('Wiring of split() decided on every returning path from provenance terms of the current source: region data = b"".join(token frames); rate/width/channels '
                        'are the tokenized source\'s own; start = token START index * effective window (source.block_dur = block_size/rate, not the requested analysis_window); the '
                        'tokenizer reads the same source with generator=True and the result is a lazy iterable; validator/tokenizer arguments sit in the right slots, no initial phase, '
